@@ -29,3 +29,11 @@ Theorem C09_residue : forall (h : list hev) cn k d p,
   fst (snd (hrun h)) (cn, k) = Some (d, p) <->
   (0 < k /\ nth_error (msgs cn d h) (k - 1) = Some p /\ nth_error (msgs cn (negb d) h) (k - 1) = None).
 Proof. exact hrun_residue. Qed.
+
+Require Import V.Match.IdentTie V.gen.IdentSrc.
+
+(* tie to the source (regenerated on every run): the keys the two directions build name the same
+   connection - all four address components, same order, server side mirrored - and every
+   client-side key with a correlation component is built identically by a server-side site *)
+Theorem C09_idents_agree : ident_sites_ok ident_sites = true.
+Proof. exact ident_src_ok. Qed.
